@@ -150,3 +150,138 @@ func BasePath(fieldAddr ssa.Value) (base, field string) {
 	}
 	return p[:i], p[i+1:]
 }
+
+// WrappedClosure describes a call H(..., func(){...}, ...) where H is a function with a body that calls that
+// parameter itself ("run this under my lock" helpers).
+type WrappedClosure struct {
+	Call    ssa.CallInstruction
+	Wrapper *ssa.Function
+	Closure *ssa.Function
+	Invokes []*ssa.Call // direct calls of the parameter inside Wrapper
+	Escapes bool        // the parameter is also used in some other way (stored, deferred, passed on, go) inside Wrapper
+	Once    bool        // exactly one invoke, outside any loop, dominating every return of Wrapper
+}
+
+// WrappedClosures lists the closure-taking helper calls of fn (go and defer statements are not included).
+func WrappedClosures(fn *ssa.Function) []WrappedClosure {
+	var out []WrappedClosure
+	for _, b := range fn.Blocks {
+		for _, in := range b.Instrs {
+			call, ok := in.(*ssa.Call)
+			if !ok {
+				continue
+			}
+			h := call.Call.StaticCallee()
+			if h == nil || len(h.Blocks) == 0 {
+				continue
+			}
+			for i, a := range call.Call.Args {
+				mc, ok := Strip(a).(*ssa.MakeClosure)
+				if !ok || i >= len(h.Params) {
+					continue
+				}
+				cl, _ := mc.Fn.(*ssa.Function)
+				if cl == nil {
+					continue
+				}
+				w := WrappedClosure{Call: call, Wrapper: h, Closure: cl}
+				p := h.Params[i]
+				for _, r := range Referrers(p) {
+					if c2, ok := r.(*ssa.Call); ok && c2.Call.Value == ssa.Value(p) && !c2.Call.IsInvoke() {
+						uses := 0
+						for _, op := range c2.Operands(nil) {
+							if *op == ssa.Value(p) {
+								uses++
+							}
+						}
+						if uses == 1 {
+							w.Invokes = append(w.Invokes, c2)
+							continue
+						}
+					}
+					if _, isDbg := r.(*ssa.DebugRef); isDbg {
+						continue
+					}
+					w.Escapes = true
+				}
+				if len(w.Invokes) == 0 && !w.Escapes {
+					continue // the parameter is never used
+				}
+				if len(w.Invokes) == 1 && !w.Escapes && !CanReach(w.Invokes[0], w.Invokes[0]) {
+					w.Once = true
+					for _, r := range Returns(h) {
+						if h.Recover != nil && r.Block() == h.Recover {
+						continue // resumption point after a recovered panic, not a normal exit
+					}
+					if !Before(w.Invokes[0], r) {
+							w.Once = false
+						}
+					}
+				}
+				out = append(out, w)
+			}
+		}
+	}
+	return out
+}
+
+// HeldViaWrapper reports whether closure fn only ever runs inside same-program helpers that call it while holding the
+// mutex field lockField of the very object obj (a value of fn): every creation site of fn hands the closure directly to a
+// wrapper H (see WrappedClosures) that does nothing else with it, some argument j of that call is the same variable as
+// obj, and at every invocation inside H the must-lockset contains <H.Params[j]>.<lockField>.
+func HeldViaWrapper(fn *ssa.Function, obj ssa.Value, lockField string) bool {
+	if fn == nil || fn.Parent() == nil || obj == nil {
+		return false
+	}
+	sites := creationSites(fn)
+	if len(sites) == 0 {
+		return false
+	}
+	for _, s := range sites {
+		mc := s.(*ssa.MakeClosure)
+		wcs := WrappedClosures(mc.Parent())
+		n := 0
+		for _, r := range Referrers(mc) {
+			if _, isDbg := r.(*ssa.DebugRef); isDbg {
+				continue
+			}
+			n++
+			c2, ok := r.(*ssa.Call)
+			if !ok {
+				return false
+			}
+			var w *WrappedClosure
+			for i := range wcs {
+				if wcs[i].Call == ssa.CallInstruction(c2) && wcs[i].Closure == fn {
+					w = &wcs[i]
+				}
+			}
+			if w == nil || w.Escapes || len(w.Invokes) == 0 {
+				return false
+			}
+			ls := Locksets(w.Wrapper)
+			found := false
+			for j, p := range w.Wrapper.Params {
+				if j >= len(c2.Call.Args) || !SameVar(obj, c2.Call.Args[j]) {
+					continue
+				}
+				all := true
+				for _, inv := range w.Invokes {
+					if !ls[inv][p.Name()+"."+lockField] {
+						all = false
+					}
+				}
+				if all {
+					found = true
+				}
+			}
+			if !found {
+				return false
+			}
+		}
+		if n == 0 {
+			return false
+		}
+	}
+	return true
+}
